@@ -531,8 +531,15 @@ func (a *act) callStatic(fn *ssa.Function, binds, args, full []Val, guard string
 	e := fx.eng
 	key := FuncKey(fn)
 	if !fx.lockMode && fn.Pkg != nil && (fn.Pkg.Pkg.Path() == "sync" || fn.Pkg.Pkg.Path() == "golang.org/x/sync/semaphore") {
+		sp0 := e.specs.Funcs[key]
 		switch fn.Name() {
-		case "Lock", "Unlock", "RLock", "RUnlock", "Add", "Done", "Wait", "Signal", "Broadcast", "Release":
+		case "Release":
+			if sp0 != nil && len(sp0.Modifies) > 0 {
+				// the semaphore's contract counts released slots (ghost): apply it
+				break
+			}
+			fallthrough
+		case "Lock", "Unlock", "RLock", "RUnlock", "Add", "Done", "Wait", "Signal", "Broadcast":
 			e.assume("functional contracts are sequential: lock/WaitGroup operations are no-ops here; atomicity of each method is the obligation of C13")
 			return a.freshResults(fn.Signature, fn.Name(), guard)
 		}
